@@ -6,6 +6,7 @@ listed in EXTRA."""
 import json, os, re
 HERE = os.path.dirname(os.path.dirname(os.path.abspath(__file__)))
 PROPS = os.path.join(HERE, "lean", "SPProofs", "Properties")
+DERIVE = [("SPProofs.Pipeline.DeriveSimple", "SPModel.Derive." + n, "full") for n in ("derivation_grid_seq", "grid_factor_function", "grid_factor_iff", "level_unique", "level_exists", "actual_mem", "mem_generate", "generate_ambiguous", "mem_product")]
 EXTRA = {
     "C24": [("SPProofs.Misc.C24Laws", "SPModel.C24." + n, "full") for n in (
                 "cross_eq_multiCross", "cross_multi_geo", "cross_multi_error", "repeat_nil_eq", "repeat_nil_geo",
@@ -23,7 +24,7 @@ EXTRA = {
             ("SPProofs.Pipeline.SeqBasic", "SPModel.Pipeline.exists_seq_of_consistency", "full"),
             ("SPProofs.Pipeline.SeqBasic", "SPModel.Pipeline.meaning_iff_seqMeaning", "full")],
     "C15": [("SPProofs.Misc.Implied", "SPModel.Implied.column_spec", "full"),
-            ("SPProofs.Misc.Implied", "SPModel.Implied.column_length", "full")],
+            ("SPProofs.Misc.Implied", "SPModel.Implied.column_length", "full")] + DERIVE,
     # property -> [(module, theorem, status)]: theorems that live outside Properties/<id>.lean
     "C01": [("SPProofs.Pipeline.VarLists", "SPModel.Pipeline.variableLists_eq", "full"),
             ("SPProofs.Pipeline.VarLists", "SPModel.Pipeline.ranges_tile", "full"),
@@ -41,7 +42,7 @@ EXTRA = {
             ("SPProofs.Pipeline.MeaningBasic", "SPModel.Pipeline.derivationSimple_meaning", "full"),
             ("SPProofs.Pipeline.MeaningCross", "SPModel.Pipeline.crossStep_meaning", "full"),
             ("SPProofs.Pipeline.Assemble", "SPModel.Pipeline.applyConstraint_meaning", "full"),
-            ("SPProofs.Pipeline.Assemble", "SPModel.Pipeline.buildBackend_meaning", "full")],
+            ("SPProofs.Pipeline.Assemble", "SPModel.Pipeline.buildBackend_meaning", "full")] + DERIVE[:2],
 }
 USES = {
     # properties whose check also relies on theorems proved in other property files
